@@ -147,6 +147,16 @@ static void test_defaults() {
     Tag<1> t1(9);
     auto c = construct<Wrap<Tag<1>>>{}(t1, p, p);
     check(c.payload == 9, "construct<T> defaults to position 1", 1, 3, 0);
+    // the documented form of the construction is T{value} (list initialisation): for a T with an initializer_list constructor that is a one-element
+    // list, not T(value) - the README builds its comma list with construct<std::vector<int>, 1>
+    ++g_cases;
+    int three = 3;
+    auto lv = construct<std::vector<int>, 1>{}(three, p);
+    check(lv.size() == 1 && lv[0] == 3, "construct<std::vector<int>,1> from 3 is the list {3}", 1, 2, 1);
+    auto lv2 = construct<std::vector<int>, 2>{}(p, 5, p);
+    check(lv2.size() == 1 && lv2[0] == 5, "construct<std::vector<int>,2> from 5 is the list {5}", 2, 3, 1);
+    auto ls = construct<std::string, 1>{}('x');
+    check(ls == "x", "construct<std::string,1> from a char is the one-character string", 1, 1, 1);
 }
 
 // ---------------------------------------------------------------- val / create
